@@ -466,7 +466,7 @@ pub fn check(id: &str, tier: &str) -> i32 {
         }
         let (mv, tried) = minimise(&e, v);
         // two original violations that minimise to the same thing are one finding
-        let mkey = format!("{}|{}", mv.class, serde_json::to_string(&mv.scenario).unwrap());
+        let mkey = mv.signature.clone();
         if !seen_min.insert(mkey) {
             continue;
         }
